@@ -43,7 +43,10 @@ class E:
         return "E(%s)" % self.k
 
 
-def expr_of_operand(fn, o, depth=0, seen=None):
+def expr_of_operand(fn, o, depth=0, seen=None, at=None):
+    """Expression tree of an operand.  `at` = (block, statement index) makes the construction
+    position-aware: a local with several definitions (a mutable accumulator, `c += x`) is resolved to
+    the definition that reaches that program point, when it is unique."""
     if o.get("k") == "const":
         if o.get("promoted") and "promoted_idx" in o and depth < MAXD:
             pf = fn.promoted(o["promoted_idx"])
@@ -55,12 +58,12 @@ def expr_of_operand(fn, o, depth=0, seen=None):
             return E("fnitem", o["fn"], o.get("fn_key"))
         return E("const", None, o.get("name") or o.get("tyconst"), o.get("txt") or o.get("tyconst"))
     if o.get("k") in ("copy", "move"):
-        return expr_of_place(fn, o, depth, seen)
+        return expr_of_place(fn, o, depth, seen, at)
     return E("unknown")
 
 
-def expr_of_place(fn, p, depth=0, seen=None):
-    base = expr_of_local(fn, p["l"], depth, seen)
+def expr_of_place(fn, p, depth=0, seen=None, at=None):
+    base = expr_of_local(fn, p["l"], depth, seen, at)
     cur = base
     variant = None
     for pe in p["p"]:
@@ -82,7 +85,7 @@ def expr_of_place(fn, p, depth=0, seen=None):
                 cur = E("field", cur, nm)
                 continue
             if "idx" in pe:
-                cur = E("index", cur, expr_of_local(fn, pe["idx"], depth + 1, seen))
+                cur = E("index", cur, expr_of_local(fn, pe["idx"], depth + 1, seen, at))
                 continue
             if "cidx" in pe:
                 cur = E("index", cur, E("const", pe["cidx"]))
@@ -91,10 +94,50 @@ def expr_of_place(fn, p, depth=0, seen=None):
     return cur
 
 
-def expr_of_local(fn, l, depth=0, seen=None):
+def _def_pos(fn, d):
+    b, kind, payload = d
+    if kind == "call":
+        return (b, 10 ** 6)
+    for i, st in enumerate(fn.blocks[b]["s"]):
+        if st is payload:
+            return (b, i)
+    return (b, 0)
+
+
+def reaching_def(fn, l, at):
+    """the unique definition of local l that reaches the program point `at` = (block, stmt index),
+    or None: the last definition earlier in the same block, else the nearest dominating definition
+    provided no other definition can execute between it and the use"""
+    bb, idx = at
+    ds = def_sites(fn, l)
+    same = [d for d in ds if d[0] == bb and _def_pos(fn, d)[1] < idx]
+    if same:
+        return max(same, key=lambda d: _def_pos(fn, d)[1])
+    doms = [d for d in ds if d[0] != bb and d[0] in fn.dom.get(bb, ())]
+    if not doms:
+        return None
+    D = max(doms, key=lambda d: (len(fn.dom.get(d[0], ())), _def_pos(fn, d)[1]))
+    for X in ds:
+        if X is D:
+            continue
+        if X[0] == D[0]:
+            if _def_pos(fn, X)[1] > _def_pos(fn, D)[1]:
+                return None
+            continue
+        if X[0] == bb:
+            # a definition later in the using block reaches the use only around a loop
+            if bb in fn._plain_reach_after(bb):
+                return None
+            continue
+        if X[0] in fn._plain_reach_after(D[0], cut={D[0]}) and bb in fn._plain_reach(X[0], cut={D[0]}):
+            return None
+    return D
+
+
+def expr_of_local(fn, l, depth=0, seen=None, at=None):
     if seen is None:
         seen = frozenset()
-    if depth > MAXD or l in seen:
+    if depth > MAXD or (l in seen and at is None) or ((l, at) in seen):
         return E("local", l, fn)
     if 1 <= l <= fn.argc:
         return E("local", l, fn)
@@ -105,41 +148,46 @@ def expr_of_local(fn, l, depth=0, seen=None):
         live = fn.live_blocks
         ds = [d for d in ds if d[0] in live]
     if len(ds) != 1:
+        if at is not None and len(ds) > 1:
+            rd = reaching_def(fn, l, at)
+            if rd is not None:
+                return expr_of_def(fn, l, rd[1], rd[2], depth, seen | {(l, at)}, _def_pos(fn, rd))
         return E("local", l, fn)
     b, kind, payload = ds[0]
-    return expr_of_def(fn, l, kind, payload, depth, seen)
+    return expr_of_def(fn, l, kind, payload, depth, seen, _def_pos(fn, ds[0]) if at is not None else None)
 
 
-def expr_of_def(fn, l, kind, payload, depth=0, seen=None):
-    """expression of one particular definition (assignment or call) of local l"""
-    seen = (seen or frozenset()) | {l}
+def expr_of_def(fn, l, kind, payload, depth=0, seen=None, at=None):
+    """expression of one particular definition (assignment or call) of local l; `at` = its own
+    position when the construction is position-aware"""
+    seen = (seen or frozenset()) | ({l} if at is None else set())
     if kind == "call":
         return E("call", payload)
     rv = payload["rv"]
     k = rv["k"]
     if k == "use":
-        return expr_of_operand(fn, rv["x"], depth + 1, seen)
+        return expr_of_operand(fn, rv["x"], depth + 1, seen, at)
     if k in ("ref", "rawptr"):
-        return expr_of_place(fn, rv["place"], depth + 1, seen)
+        return expr_of_place(fn, rv["place"], depth + 1, seen, at)
     if k == "cast":
-        inner = expr_of_operand(fn, rv["x"], depth + 1, seen)
+        inner = expr_of_operand(fn, rv["x"], depth + 1, seen, at)
         if rv["kind"].startswith("PointerCoercion") or rv["kind"] in ("PtrToPtr",):
             return inner
         return E("cast", inner, rv["ty"], rv["kind"])
     if k == "binop":
-        return E("binop", rv["op"], expr_of_operand(fn, rv["l"], depth + 1, seen),
-                 expr_of_operand(fn, rv["r"], depth + 1, seen))
+        return E("binop", rv["op"], expr_of_operand(fn, rv["l"], depth + 1, seen, at),
+                 expr_of_operand(fn, rv["r"], depth + 1, seen, at))
     if k == "unop":
-        return E("unop", rv["op"], expr_of_operand(fn, rv["x"], depth + 1, seen))
+        return E("unop", rv["op"], expr_of_operand(fn, rv["x"], depth + 1, seen, at))
     if k == "discr":
-        return E("discr", expr_of_place(fn, rv["place"], depth + 1, seen))
+        return E("discr", expr_of_place(fn, rv["place"], depth + 1, seen, at))
     if k == "agg":
-        ops = [expr_of_operand(fn, o, depth + 1, seen) for o in rv["ops"]]
+        ops = [expr_of_operand(fn, o, depth + 1, seen, at) for o in rv["ops"]]
         if rv.get("agg") == "adt":
             return E("agg", rv["path"], rv["variant"], ops)
         return E("agg", rv.get("agg"), None, ops)
     if k == "repeat":
-        return E("repeat", expr_of_operand(fn, rv["x"], depth + 1, seen), rv["n"])
+        return E("repeat", expr_of_operand(fn, rv["x"], depth + 1, seen, at), rv["n"])
     return E("unknown")
 
 
